@@ -92,6 +92,9 @@ WitStacks == { << >>, << B("h.w1", 72) >>, << B("", 0), B("h.w2", 253) >> }
 FamHeader ==
   { MkHeader(v, [kind |-> "proof", challenge |-> B("h.challenge", c), solution |-> B("h.solution", so)])
       : v \in {"20000000", "1"}, c \in {0, 1, 253}, so \in {0, 72, 253} } \cup
+  \* every version bit below the dynafed marker is an ordinary bit: bit 30 set, all of them set
+  { MkHeader(v, [kind |-> "proof", challenge |-> B("h.challenge", 1), solution |-> B("h.solution", 72)]) : v \in {"60000000", "7fffffff"} } \cup
+  { MkHeader(v, [kind |-> "dynafed", cur |-> MkP("c", <<"compact", 33, << >> >>), prop |-> MkP("p", <<"null", 0, << >> >>), wit |-> << >>]) : v \in {"60000000", "7fffffff"} } \cup
   { MkHeader(v, [kind |-> "dynafed", cur |-> MkP("c", c), prop |-> MkP("p", q), wit |-> w])
       : v \in {"20000000", "1"}, c \in ParamKinds, q \in ParamKinds, w \in WitStacks }
 FamBlock ==
@@ -105,6 +108,8 @@ FamBlock ==
 \* varint boundaries of the counts that only headers and blocks have: extension-space entries, signblock witness items, transactions
 WideHeader(n, w) == MkHeader("20000000", [kind |-> "dynafed", cur |-> MkP("c", <<"full", 33, [k \in 1..n |-> 1]>>), prop |-> MkP("p", <<"null", 0, << >> >>),
                                           wit |-> [k \in 1..w |-> B("", 0)]])
+\* in-memory only (C02: the hash is that of the serialization whatever the version field holds; not part of the round-trip claim)
+FamHeaderMarked == { MkHeader("a0000000", [kind |-> "dynafed", cur |-> MkP("c", d), prop |-> MkP("p", <<"null", 0, << >> >>), wit |-> << >>]) : d \in { <<"compact", 33, << >> >>, <<"null", 0, << >> >> } }
 FamHeaderWide == { WideHeader(n, w) : n \in {0, 252, 253}, w \in {0, 252, 253} }
 FamBlockWide ==
   { [header |-> MkHeader("20000000", [kind |-> "proof", challenge |-> B("h.challenge", 1), solution |-> B("h.solution", 72)]),
@@ -150,11 +155,18 @@ Truncations(toks) == { SubSeq(toks, 1, k) : k \in (IF Len(toks) > 6 THEN {Len(to
 Extensions(toks)  == { Append(toks, U8(0)), Append(toks, U32("1")) }
 \* only the length / count prefixes re-written one width wider: at the boundaries 252 | 253 and 65535 | 65536 this is the largest
 \* value a wider form must refuse and the smallest it must take
+HiMutants(toks) == { SetTokAt(toks, i, <<"vihi", toks[i][2]>>) : i \in { j \in DOMAIN toks : toks[j][1] = "viw" } }
 WidenMutants(toks) == UNION { { SetTokAt(toks, i, t) : t \in MutTok(toks[i]) } : i \in { j \in DOMAIN toks : toks[j][1] = "viw" } }
 BoundaryBases ==
   { MkTx(<< MkIn(1, "small", FALSE, <<"none">>, l, {}) >>, << MkOut(1, "expl", "expl", "null", l, {}) >>) : l \in {252, 253, 65535, 65536} } \cup
   { MkTx([i \in 1..n |-> SimpleIn(i)], << SimpleOut(1) >>) : n \in {252, 253} } \cup
-  { MkTx(<< [SimpleIn(1) EXCEPT !.wit.sw = << B("i1.sw1", l) >>] >>, << SimpleOut(1) >>) : l \in {252, 253, 65535, 65536} }
+  { MkTx(<< [SimpleIn(1) EXCEPT !.wit.sw = << B("i1.sw1", l) >>] >>, << SimpleOut(1) >>) : l \in {252, 253, 65535, 65536} } \cup
+  \* the largest byte vector the decoder takes
+  { MkTx(<< MkIn(1, "small", FALSE, <<"none">>, MaxVec, {}) >>, << SimpleOut(1) >>), MkTx(<< [SimpleIn(1) EXCEPT !.wit.sw = << B("i1.sw1", MaxVec) >>] >>, << SimpleOut(1) >>) }
+\* one byte more: a value the encoder writes and the decoder must refuse
+OverMaxBases ==
+  { MkTx(<< MkIn(1, "small", FALSE, <<"none">>, MaxVec + 1, {}) >>, << SimpleOut(1) >>), MkTx(<< [SimpleIn(1) EXCEPT !.wit.sw = << B("i1.sw1", MaxVec + 1) >>] >>, << SimpleOut(1) >>),
+    MkTx(<< SimpleIn(1) >>, << MkOut(1, "expl", "expl", "null", MaxVec + 1, {}) >>) }
 Mutants(toks) == LocalMutants(toks) \cup FlagMutants(toks) \cup Truncations(toks) \cup Extensions(toks)
 
 \* flag 1 with an all-empty witness section (only meaningful for a transaction without witness)
